@@ -59,8 +59,8 @@ theorem outcome_survives (table : List (List Step)) (S : List (List Exc)) (hS : 
 
 /-! ### serial accept loops -/
 
-theorem pickedUpAt_well_behaved (cs : List Conn) (h : ∀ c ∈ cs, c.wellBehaved = true) (R W : Option Nat) :
-    ∀ k, (pickedUpAt R W cs k).isSome = true := by
+theorem pickedUpAt_well_behaved (cs : List Conn) (h : ∀ c ∈ cs, c.wellBehaved = true) (b : Bounds) :
+    ∀ k, (pickedUpAt b cs k).isSome = true := by
   induction cs with
   | nil => intro k; cases k <;> rfl
   | cons c rest ih =>
@@ -71,18 +71,17 @@ theorem pickedUpAt_well_behaved (cs : List Conn) (h : ∀ c ∈ cs, c.wellBehave
       have hc := h c List.mem_cons_self
       have hr := ih (fun x hx => h x (List.mem_cons_of_mem _ hx)) k
       cases c with
-      | silent => cases hc
-      | neverReads w => cases hc
+      | stalls s w => cases hc
       | completes w =>
         simp only [pickedUpAt, holdTime]
-        cases hp : pickedUpAt R W rest k with
+        cases hp : pickedUpAt b rest k with
         | none => rw [hp] at hr; cases hr
         | some t => rfl
 
-/-- with every blocking read and write bounded by `T`, every client is reached, after at most
-    `k · (T + B)` when no request costs more than `B` -/
-theorem pickedUpAt_bounded (T B : Nat) (cs : List Conn) (hB : ∀ c ∈ cs, c.work ≤ B) :
-    ∀ k, ∃ t, pickedUpAt (some T) (some T) cs k = some t ∧ t ≤ k * (T + B) := by
+/-- with every blocking step bounded by `T`, every client is reached, after at most `k · (T + B)` when no
+    request costs more than `B` -/
+theorem pickedUpAt_bounded (T B : Nat) (b : Bounds) (hb : ∀ s, b s = some T) (cs : List Conn)
+    (hB : ∀ c ∈ cs, c.work ≤ B) : ∀ k, ∃ t, pickedUpAt b cs k = some t ∧ t ≤ k * (T + B) := by
   induction cs with
   | nil => intro k; cases k <;> exact ⟨0, rfl, Nat.zero_le _⟩
   | cons c rest ih =>
@@ -93,15 +92,12 @@ theorem pickedUpAt_bounded (T B : Nat) (cs : List Conn) (hB : ∀ c ∈ cs, c.wo
       obtain ⟨t, ht, hle⟩ := ih (fun x hx => hB x (List.mem_cons_of_mem _ hx)) k
       have hw := hB c List.mem_cons_self
       cases c with
-      | silent =>
-        refine ⟨T + t, by simp [pickedUpAt, holdTime, ht], ?_⟩
-        rw [Nat.succ_mul]; omega
       | completes w =>
         refine ⟨w + t, by simp [pickedUpAt, holdTime, ht], ?_⟩
         simp only [Conn.work] at hw
         rw [Nat.succ_mul]; omega
-      | neverReads w =>
-        refine ⟨w + T + t, by simp [pickedUpAt, holdTime, ht], ?_⟩
+      | stalls s w =>
+        refine ⟨w + T + t, by simp [pickedUpAt, holdTime, ht, hb s], ?_⟩
         simp only [Conn.work] at hw
         rw [Nat.succ_mul]; omega
 
